@@ -2147,3 +2147,79 @@ func (c *Ctx) succeedsOnlyByWriting(rule string, fi *load.FuncInfo, detail strin
 	}
 	return n
 }
+
+// pEncoder: fn is a function of the module with results ([]byte, error) that encodes the way the stores do — every return
+// is (append([]byte{'p'}, v...), nil) with v the result of a Marshal call, or (nil, <that Marshal's error>). A writer that
+// stores what such a function returns stores 'p' + protobuf, and can fail with it only when the encoder does.
+func (c *Ctx) pEncoder(fn *types.Func) bool {
+	fi := c.P.FuncOf(fn)
+	if fi == nil || fi.Body() == nil {
+		return false
+	}
+	sig := fn.Type().(*types.Signature)
+	if sig.Results().Len() != 2 || !types.Identical(sig.Results().At(1).Type(), types.Universe.Lookup("error").Type()) {
+		return false
+	}
+	info := fi.Info()
+	isMarshal := func(e ast.Expr) bool {
+		call, ok := ast.Unparen(e).(*ast.CallExpr)
+		if !ok {
+			return false
+		}
+		f := astx.Callee(info, call)
+		return f != nil && f.Name() == "Marshal" && f.Pkg() != nil && (strings.HasSuffix(f.Pkg().Path(), "/proto") || strings.Contains(f.Pkg().Path(), "protobuf"))
+	}
+	fromMarshal := func(e ast.Expr) bool {
+		id, ok := ast.Unparen(e).(*ast.Ident)
+		if !ok {
+			return false
+		}
+		ds := defsOf(info, fi.Node(), astx.Obj(info, id))
+		if len(ds) == 0 {
+			return false
+		}
+		for _, d := range ds {
+			if d == nil || !isMarshal(d) {
+				return false
+			}
+		}
+		return true
+	}
+	n := 0
+	ok := true
+	ast.Inspect(fi.Body(), func(m ast.Node) bool {
+		if _, isLit := m.(*ast.FuncLit); isLit {
+			return false
+		}
+		rs, isRet := m.(*ast.ReturnStmt)
+		if !isRet {
+			return true
+		}
+		n++
+		if len(rs.Results) != 2 {
+			ok = false
+			return true
+		}
+		if isNilIdent(info, rs.Results[1]) {
+			ap, isCall := ast.Unparen(rs.Results[0]).(*ast.CallExpr)
+			if !isCall || astx.Builtin(info, ap) != "append" || len(ap.Args) != 2 || !ap.Ellipsis.IsValid() || !fromMarshal(ap.Args[1]) {
+				ok = false
+				return true
+			}
+			cl, isCL := ast.Unparen(ap.Args[0]).(*ast.CompositeLit)
+			if !isCL || len(cl.Elts) != 1 {
+				ok = false
+				return true
+			}
+			if k, isC := astx.ConstInt(info, cl.Elts[0]); !isC || k != 'p' {
+				ok = false
+			}
+			return true
+		}
+		if !isNilIdent(info, rs.Results[0]) || !fromMarshal(rs.Results[1]) {
+			ok = false
+		}
+		return true
+	})
+	return ok && n >= 2
+}
